@@ -304,6 +304,9 @@ func (p *Parser) parsePosting() *ast.Posting {
 	return posting
 }
 
+// maxNumberExponent bounds the decimal exponent of a quantity, in both directions.
+const maxNumberExponent = 255
+
 func (p *Parser) parseAmount() *ast.Amount {
 	amount := &ast.Amount{}
 	amount.Range.Start = toASTPosition(p.current.Pos)
@@ -355,6 +358,12 @@ func (p *Parser) parseAmount() *ast.Amount {
 	qty, err := decimal.NewFromString(numberStr)
 	if err != nil {
 		p.error("invalid number: %s", p.current.Value)
+		return nil
+	}
+	// A quantity like 1E3000000 is a few bytes of text but 10^3000000 as soon as it is
+	// summed or printed; hledger itself keeps at most 255 decimal places.
+	if exp := qty.Exponent(); exp > maxNumberExponent || exp < -maxNumberExponent {
+		p.error("number out of range: %s", p.current.Value)
 		return nil
 	}
 	amount.Quantity = qty
